@@ -455,6 +455,16 @@ func (g *Gen) createOp() *Op {
 			}
 			dis = append(dis, di)
 		}
+		if !crowded && !g.bigFirst && !g.promoteLow && n+2 <= cap && r.Intn(1000) < g.p.Rejects/4 {
+			// a second primary system partition among the initial objects: creation must refuse it
+			if !havePrim {
+				dis = append(dis, DI{DT: 0x4004, Fail: -1, Data: DataSpec{Lit: r.Bytes(1 + r.Intn(20))},
+					Opts: []DIOpt{{Kind: "part", I: int64(1 + r.Intn(5)), J: 2, S: pick(r, archNames)}}})
+			}
+			dis = append(dis, DI{DT: 0x4004, Fail: -1, Data: DataSpec{Lit: r.Bytes(1 + r.Intn(20))},
+				Opts: []DIOpt{{Kind: "part", I: int64(1 + r.Intn(5)), J: 2, S: pick(r, archNames)}}})
+			g.count("reject:create-second-primary")
+		}
 		// one or two option calls
 		if len(dis) > 1 && r.Chance(1, 3) {
 			k := 1 + r.Intn(len(dis)-1)
